@@ -7,6 +7,7 @@
     deck.clean <kw:end,kw:end|-> <hex>        clean() with the given code keywords
     deck.getline <hex>
     deck.split <recordhex> <next>             RawRecord tokens (`,`-joined) | err
+    deck.splitp <recordhex> <next>            the same through the pointer-level mirror (LexPtr)
     deck.star <hex>                           plain | bad | rep <n> <valuehex>
     deck.rdstr <hex>   deck.rdint <hex>   deck.okdbl <hex>
     deck.parse <schema> <recordhex> <next>    canonical record | err
@@ -17,6 +18,7 @@ import OpmVerif.Model.Scan
 import OpmVerif.Model.DeckWrite
 import OpmVerif.Model.RawKw
 import OpmVerif.Model.Deck
+import OpmVerif.Model.LexPtr
 -- driver: prefix=deck handler=OpmVerif.DeckIO.handle
 
 namespace OpmVerif.DeckIO
@@ -320,6 +322,15 @@ def handle (op : String) (args : List String) : String :=
     | some b, some [_] => match rawRecord b with
       | none => "err"
       | some ts => if ts.isEmpty then "none" else ",".intercalate (ts.map hx)
+    | _, _ => "bad-op"
+  | "deck.splitp", [h, nx] => match ofHex h, ofHex nx with
+    -- pointer-level mirror of splitSingleRecordString (Model/LexPtr.lean): `ub` would be an
+    -- iterator outside the record
+    | some b, some [_] => match OpmVerif.LexPtr.splitRecordP b with
+      | .ub => "ub"
+      | .ok vs =>
+        if !evenQuotes b then "err"
+        else if vs.isEmpty then "none" else ",".intercalate (vs.map fun v => hx (v.bytes b))
     | _, _ => "bad-op"
   | "deck.star", [h] => match ofHex h with
     | some b => match classify b with
